@@ -92,6 +92,16 @@ def make_case(i, rng, tier):
         if fa:
             data, rec2 = fa
             recs.append(rec2)
+    elif r < 0.612 and o2.problem and len(data) < 4000:
+        # the problem sits early in a big capture: tens of kB (beyond 64 KiB) are still unconsumed when it is detected,
+        # and they arrive through a generator / list / file source, not a bytes object
+        n = rng.choice((20000, 66000, 70000, 131100))
+        data = data + bytes(rng.randrange(256) for _ in range(64)) * (n // 64)
+        recs.append(dict(kind="append", off=len(data) - n, depth=0, regions=[], cls="end", n=n, big=True))
+        case = common.mk_case(rng, inp, data, recs, perturbation=False)
+        case["tasks"][0]["source"] = rng.choice(("gen", "list", "iter", "counting", "simfile", "bytes"))
+        case["tasks"][0]["chunks"] = [rng.choice((4096, 8192, 65536))]
+        return case
     return common.mk_case(rng, inp, data, recs)
 
 
